@@ -258,8 +258,12 @@ impl<A> ZXTape<A> {
     pub fn current_bit(&self) -> bool { unimplemented!() }
 }
 impl AymPrecise {
+    /// ghost log of register writes that reached the generator
+    pub uninterp spec fn writes(&self) -> Seq<(u8, u8)>;
     #[verifier::external_body]
-    pub fn write_register(&mut self, reg: u8, data: u8) { unimplemented!() }
+    pub fn write_register(&mut self, reg: u8, data: u8)
+        ensures final(self).writes() == old(self).writes().push((reg, data)),
+    { unimplemented!() }
 }
 
 /// Host-side traits: declarations with ghost call log (R-ext)
@@ -346,6 +350,18 @@ impl ZXAyChip {
         ensures final(self).wf(), final(self).current_reg == old(self).current_reg,
             final(self).regs@ == old(self).regs@.update(old(self).current_reg as int, data),
 //@ end
+//@ fn rustzx-core/src/zx/sound/ay.rs impl ZXAyChip::set_regs props C14 C15
+//@ sig
+        requires regs@.len() >= 16,
+        ensures final(self).regs@ == regs@.subrange(0, 16), final(self).current_reg == old(self).current_reg,
+            // every register value is also handed to the sound generator (ghost write log)
+            final(self).ay.writes() == old(self).ay.writes() + Seq::new(16, |i: int| (i as u8, regs@[i])),
+//@ loop 0 iter it
+            invariant
+                self.regs@ == regs@.subrange(0, 16), self.current_reg == old(self).current_reg, regs@.len() >= 16,
+                self.ay.writes() == old(self).ay.writes() + Seq::new(it.index@ as nat, |i: int| (i as u8, regs@[i])),
+//@ end
+
 //@ fn rustzx-core/src/zx/sound/ay.rs impl ZXAyChip::read props C07 C18
 //@ ret r
 //@ sig
